@@ -118,11 +118,58 @@ func c18Guards(e *Env) {
 	if rename != nil {
 		n := 0
 		ff := e.Facts(rename)
-		for _, ci := range ir.CallsIn(rename, func(c *ssa.CallCommon) bool { return ir.IsCallTo(c, "os.Rename", "os.Link") }) {
+		// the rename itself, or a call of a one-block forwarder of the package around it
+		// (`from.moveTo(to)` = os.Rename(string(f), string(target))): source and target are
+		// then the forwarder's arguments
+		type rnSite struct {
+			ci       ssa.CallInstruction
+			src, dst ssa.Value
+		}
+		var rnSites []rnSite
+		stripConv := func(v ssa.Value) ssa.Value {
+			for d := 0; d < 3; d++ {
+				switch x := v.(type) {
+				case *ssa.Convert:
+					v = x.X
+					continue
+				case *ssa.ChangeType:
+					v = x.X
+					continue
+				}
+				break
+			}
+			return v
+		}
+		for _, ci := range ir.CallsIn(rename, func(c *ssa.CallCommon) bool { return c.StaticCallee() != nil }) {
+			if ir.IsCallTo(ci.Common(), "os.Rename", "os.Link") {
+				rnSites = append(rnSites, rnSite{ci, ci.Common().Args[0], ci.Common().Args[1]})
+				continue
+			}
+			h := ci.Common().StaticCallee()
+			if !e.P.Funcs[h] || len(h.Blocks) != 1 || rootFn(h).Package() != rootFn(rename).Package() {
+				continue
+			}
+			for _, inner := range ir.CallsIn(h, func(c *ssa.CallCommon) bool { return ir.IsCallTo(c, "os.Rename", "os.Link") }) {
+				var sd [2]ssa.Value
+				for k := 0; k < 2; k++ {
+					a := stripConv(ir.Resolve(inner.Common().Args[k]))
+					for pi, hp := range h.Params {
+						if a == ssa.Value(hp) && pi < len(ci.Common().Args) {
+							sd[k] = ci.Common().Args[pi]
+						}
+					}
+				}
+				if sd[0] != nil && sd[1] != nil {
+					rnSites = append(rnSites, rnSite{ci, sd[0], sd[1]})
+				}
+			}
+		}
+		for _, rs := range rnSites {
+			ci := rs.ci
 			n++
 			// the guard may be disjunctive (`new != old && exists(new)` refuses):
 			// every way of reaching the rename must carry !exists(target) or target == source
-			src, dst := ci.Common().Args[0], ci.Common().Args[1]
+			src, dst := rs.src, rs.dst
 			dnf, ok := ir.ReachingCondition(rename.Blocks[0], ci.Block(), 32)
 			if !ok {
 				r.Unknown("DAGStore.Rename: os.Rename only when the target does not exist", e.InstrPos(ci), "reaching condition too large to decide")
@@ -295,7 +342,14 @@ func c18AtomicSave(e *Env, update *ssa.Function, spec ssa.Value) {
 		if f == update {
 			return nil
 		}
-		return e.StaticCallSites(f)
+		var out []ssa.CallInstruction
+		for _, cs := range e.StaticCallSites(f) {
+			if p := cs.Parent(); p.Synthetic != "" && p.Origin() == nil && p.Parent() == nil {
+				continue // the compiler's pointer-receiver wrapper of a value method
+			}
+			out = append(out, cs)
+		}
+		return out
 	}
 	// exact: the value IS the location (no path arithmetic followed)
 	exact := &ir.Tracer{C: e.C, Through: map[string]bool{}, Descend: noLoc, Up: up}
@@ -359,7 +413,8 @@ func c18AtomicSave(e *Env, update *ssa.Function, spec ssa.Value) {
 		pos = e.InstrPos(renameSites[0])
 	}
 	r.Check(!inPlace && len(renameSites) > 0, "UpdateSpec: new text reaches the final location by rename, not by an in-place truncating write", pos,
-		"the definition is truncated and rewritten in place: a crash (or a full disk) between the truncate and the last write leaves an empty or partial definition")
+		"the definition is truncated and rewritten in place: a crash (or a full disk) between the truncate and the last write leaves an empty or partial definition",
+		sprintf("location function: %s; in-place write found: %v; renames onto the location: %d", locName, inPlace, len(renameSites)))
 	if !inPlace {
 		// every file renamed into place is one the spec was written to, and the rename happens only after that write succeeded
 		for _, rs := range renameSites {
@@ -392,6 +447,38 @@ func c18AtomicSave(e *Env, update *ssa.Function, spec ssa.Value) {
 								if !ir.ReachableAssuming(ex, rs, map[ssa.Value]bool{ex: true}) {
 									okAfter = true
 								}
+							}
+						}
+					}
+				}
+			}
+			// the write made by a helper of the package (`fillAndFlush(tmp, content, perm)`)
+			// that hands back nil only when the write succeeded: the helper's call stands
+			// for the write in the function that renames
+			if okWrite && !okAfter {
+				if wc, isC := w.(*ssa.Call); isC && wc.Parent() != rs.Parent() {
+					h := wc.Parent()
+					errIdx := h.Signature.Results().Len() - 1
+					reports := errIdx >= 0 && ir.IsErrorType(h.Signature.Results().At(errIdx).Type())
+					if reports {
+						for _, hb := range h.Blocks {
+							if rt, isR := hb.Instrs[len(hb.Instrs)-1].(*ssa.Return); isR && e.Facts(h).Reachable(hb) {
+								for _, rv := range RetVals(rt, errIdx) {
+									if e.mayBeNil(rt, rv) && !e.onlyAfterOK(wc, rt) {
+										reports = false
+									}
+								}
+							}
+						}
+					}
+					if reports {
+						for _, cs := range e.StaticCallSites(h) {
+							cc, isCall := cs.(*ssa.Call)
+							if !isCall || cc.Parent() != rs.Parent() || !ir.Precedes(cc, rs) {
+								continue
+							}
+							if ev := errOfCall(cc); ev != nil && !ir.ReachableAssuming(cc, rs, map[ssa.Value]bool{ev: true}) {
+								okAfter = true
 							}
 						}
 					}
